@@ -259,6 +259,22 @@ Definition narrow_events (e : expr) (truthy : bool) : list event := ev (Some tru
 
 End Traversal.
 
+(* VisitExprNode of expr_ast.go (the generic visitor, used by actionlint's own
+   tests to drive the checker): every node gets both callbacks, index before
+   operand, all arguments. *)
+Fixpoint visit_events (e : expr) : list event :=
+  match e with
+  | EVar _ _ | ENull _ | EBool _ _ | EInt _ _ | EFloat _ _ | EStr _ _ =>
+      [Enter (node_of e); Leave (node_of e)]
+  | EDeref r _ => Enter (node_of e) :: visit_events r ++ [Leave (node_of e)]
+  | EArrDeref r => Enter (node_of e) :: visit_events r ++ [Leave (node_of e)]
+  | EIndex o i => Enter (node_of e) :: visit_events i ++ visit_events o ++ [Leave (node_of e)]
+  | ENot _ a => Enter NOther :: visit_events a ++ [Leave NOther]
+  | ECmp _ l r => Enter NOther :: visit_events l ++ visit_events r ++ [Leave NOther]
+  | ELog _ l r => Enter NOther :: visit_events l ++ visit_events r ++ [Leave NOther]
+  | ECall _ c args => Enter (NCall c) :: flat_map visit_events args ++ [Leave (NCall c)]
+  end.
+
 (* NewExprSemanticsChecker(checkUntrusted, …).Check: the untrusted errors of one
    expression.  [script] is the checkUntrusted flag (checkScriptString passes
    true, checkString false). *)
